@@ -307,6 +307,13 @@ class Equalizer(object):
         """
         Creates and start new player process, ready to take playback tasks
         """
+        # Every worker process gets its own fresh queues, whatever a previous worker that timed out or died left behind
+        # (a task it never took, or an answer it produced after we gave up on it) must not be mixed up with the
+        # recordings handed to the new worker
+        self._compare_tasks.close()
+        self._compare_results.close()
+        self._compare_tasks = mp.Queue()
+        self._compare_results = mp.Queue()
         self._compare_process = mp.Process(
             target=self._playback_process_target, name='Playback runner')
         self._compare_process.start()
